@@ -1021,6 +1021,9 @@ def np_unique(x):
     x = _num(x)
     if isinstance(x, Lane):
         w = x.whole()
+        if not values._mentions_lane(x.t) and x.mask is None:
+            # an array filled with one lane-independent value has exactly one distinct value
+            return UniqueVal(x, Sym(ir.ONE), x.t)
         k = Sym(ir.uf('n_unique', [w], 'I'))
         State.ctx.assume(ir.ge(k.t, 1))
         first = ir.uf('unique0', [w])
@@ -1131,6 +1134,20 @@ def np_std(x, axis=None, ddof=0):
     if isinstance(x, Lane):
         return x.std(ddof=ddof)
     raise Unsupported('np.std')
+
+
+def _np_min2(x, axis=None):
+    x = _num(x)
+    if isinstance(x, Lane):
+        return x.min()
+    return np_min(x, axis)
+
+
+def _np_max2(x, axis=None):
+    x = _num(x)
+    if isinstance(x, Lane):
+        return x.max()
+    return np_max(x, axis)
 
 
 def np_min(x, axis=None):
@@ -1343,7 +1360,7 @@ NP = Stub('numpy', {
     'float32': NP_FLOAT32, 'float64': CallableType(float, _float), 'floating': NP_FLOATING, 'integer': NP_INTEGER,
     'ndarray': NDARRAY, 'inf': Sym(ir.INF), 'nan': Sym(ir.const(float('nan'))), 'pi': Sym(ir.uf('pi', [])),
     'issubdtype': np_issubdtype, 'dtype': np_dtype, 'fromiter': np_fromiter, 'sum': np_sum, 'mean': np_mean,
-    'std': np_std, 'min': np_min, 'max': np_max, 'amin': np_min, 'amax': np_max, 'identity': np_identity,
+    'std': np_std, 'min': _np_min2, 'max': _np_max2, 'amin': _np_min2, 'amax': _np_max2, 'identity': np_identity,
     'concatenate': np_concatenate, 'nonzero': np_nonzero, 'isscalar': np_isscalar, 'nan_to_num': np_nan_to_num,
     'random': NP_RANDOM, 'ones_like': lambda x: np_full(np_shape(x)[0], 1), 'zeros_like': lambda x: np_full(np_shape(x)[0], 0),
     'len': _len,
@@ -1456,13 +1473,23 @@ def _deep_copy(x):
     if isinstance(x, set):
         return set(x)
     if isinstance(x, Obj):
+        from .interp import BoundMethod
         o = Obj(x.cls)
-        o.attrs = {k: _deep_copy(v) for k, v in x.attrs.items()}
+        o.attrs = {k: (BoundMethod(o, v.func) if isinstance(v, BoundMethod) and v.obj is x else _deep_copy(v))
+                   for k, v in x.attrs.items()}
         return o
     if isinstance(x, RandomStateObj):
         return RandomStateObj(x.state)
+    if isinstance(x, GenList):
+        return GenList(x.lane.copy())
     if hasattr(x, 'sym_deepcopy'):
         return x.sym_deepcopy()
+    if type(x).__name__ in ('KdeObj', 'LabeledMat', 'Frame', 'SeriesRow', 'SeriesCol', 'ConcArr', 'RowsArr', 'Index'):
+        import copy as _copy
+        return _copy.copy(x)
+    from .interp import BoundMethod
+    if isinstance(x, BoundMethod):
+        return x
     from .interp import ClassVal, FuncVal
     if isinstance(x, (ClassVal, FuncVal, TypeToken)):
         return x
@@ -1893,7 +1920,12 @@ class Dist(object):
                 k = len(DIST_SHAPES[self.name]) + 2
                 names = DIST_SHAPES[self.name] + ['loc', 'scale']
                 State.ctx.event('libcall', ('fit.' + self.name, [w] + extra), State.where)
-                return tuple(Sym(ir.uf('fit.%s.%s' % (self.name, names[j]), [w] + extra)) for j in range(k))
+                out = tuple(Sym(ir.uf('fit.%s.%s' % (self.name, names[j]), [w] + extra)) for j in range(k))
+                # a fitted scale is positive on data that are not constant (assumed: scipy never returns scale = 0 there)
+                State.ctx.assume(ir.implies(ir.gt(ir.uf('n_unique', [w], 'I'), 1), ir.gt(out[-1].t, 0)))
+                # on a constant sample the fitted location is that constant (assumed; observed for scipy's t.fit)
+                State.ctx.assume(ir.implies(ir.eq(ir.uf('n_unique', [w], 'I'), 1), ir.eq(out[-2].t, ir.uf('unique0', [w]))))
+                return out
             return fit
         if name == 'nnlf':
             def nnlf(theta, X):
@@ -1926,7 +1958,7 @@ class KdeObj(object):
     """scipy.stats.gaussian_kde instance: ASSUMED CONTRACT. gaussian_kde(dataset, bw_method, weights): .dataset is
     the (1, n) data, .weights >= 0 summing to 1, .covariance[0,0] = factor(bw_method, n)^2 * weighted variance > 0,
     .evaluate(x) = sum_j w_j * phi((x - x_j)/s)/s with s = sqrt(covariance[0,0]); .logpdf(x) = log(evaluate(x));
-    .resample(size) returns a (1, size) array and consumes only the global numpy generator."""
+    .resample(size) returns a (1, size) array, consumes only the global numpy generator, and for size >= 2 its draws are not all equal (almost sure)."""
     JDX = ir.var('@j', 'I')
 
     def __init__(self, dataset, bw_method, weights):
@@ -1972,6 +2004,8 @@ class KdeObj(object):
                 n = size if size is not None else Sym(ir.uf('kde.neff', self.key, 'I'))
                 g = RNG.advance('kde.resample', [n])
                 lane = Lane(ir.uf('kde.resample.elem', [g] + self.key + [to_term(n), values.IDX]), n)
+                # assumed: draws from a continuous density are (almost surely) not all equal when there are two or more
+                State.ctx.assume(ir.implies(ir.ge(to_term(n), 2), ir.ne(ir.uf('n_unique', [lane.whole()], 'I'), 1)))
                 return RowsArr([lane])
             return resample
         raise Unsupported('gaussian_kde.' + name)
@@ -2469,3 +2503,79 @@ def _ff_distplot(hist_data=None, group_labels=None, **kw):
 EXTERNAL['plotly'] = Stub('plotly', {})
 EXTERNAL['plotly.express'] = Stub('plotly.express', {'scatter': _px('scatter'), 'scatter_3d': _px('scatter_3d')})
 EXTERNAL['plotly.figure_factory'] = Stub('plotly.figure_factory', {'create_distplot': _ff_distplot})
+
+
+# ------------------------------------------------------------------------------------------------
+# files, json, pickle (ghost file system)
+# ------------------------------------------------------------------------------------------------
+
+class FileObj(object):
+    def __init__(self, path, mode):
+        self.path, self.mode = path, mode
+
+    def cm_enter(self, interp):
+        return self
+
+    def cm_exit(self, interp, exc):
+        return False
+
+
+def _open(path, mode='r', *a, **k):
+    return FileObj(path, mode)
+
+
+BUILTINS['open'] = _open
+
+
+def _fs():
+    c = State.ctx
+    if not hasattr(c, 'fs') or c.fs is None:
+        c.fs = {}
+    return c.fs
+
+
+def _jsonify(x):
+    """json round trip of Python data: dict keys become str, tuples lists, floats/ints/str/bool/None unchanged;
+    anything else (set, ndarray, enum ...) is a TypeError"""
+    from .interp import PyList
+    if isinstance(x, (Sym, str, int, float, bool)) or x is None:
+        return x
+    if isinstance(x, (list, tuple)):
+        if isinstance(x, PyList) and x.gen is not None:
+            return x
+        return PyList([_jsonify(v) for v in x])
+    if isinstance(x, GenList):
+        return x
+    if isinstance(x, dict):
+        return {(k if isinstance(k, str) else str(k)): _jsonify(v) for k, v in x.items()}
+    _raise('TypeError', 'Object of type %s is not JSON serializable' % type(x).__name__)
+
+
+@model('json.dump/load', 'json.dump(obj, f) then json.load(f) on the same path returns a structurally equal copy of obj made of '
+       'JSON types (tuples become lists, keys strings, floats round-trip exactly); non-JSON leaves raise TypeError')
+def _json_dump(obj, f, **k):
+    _fs()[f.path] = ('json', _jsonify(obj))
+
+
+def _json_load(f, **k):
+    kind, v = _fs().get(f.path, (None, None))
+    if kind != 'json':
+        _raise('FileNotFoundError', f.path)
+    return _jsonify(v)
+
+
+@model('pickle.dump/load', 'pickle.dump(obj, f) then pickle.load(f) returns a structurally equal deep copy of obj')
+def _pickle_dump(obj, f, **k):
+    _fs()[f.path] = ('pickle', _deep_copy(obj))
+
+
+def _pickle_load(f, **k):
+    kind, v = _fs().get(f.path, (None, None))
+    if kind != 'pickle':
+        _raise('FileNotFoundError', f.path)
+    return _deep_copy(v)
+
+
+EXTERNAL['json'] = Stub('json', {'dump': _json_dump, 'load': _json_load, 'dumps': lambda o, **k: ('json', _jsonify(o)),
+                                 'loads': lambda s, **k: _jsonify(s[1])})
+EXTERNAL['pickle'] = Stub('pickle', {'dump': _pickle_dump, 'load': _pickle_load})
